@@ -173,7 +173,12 @@ def selftest():
     TWO = NEW + "    def other(self, t):\n        self._remember(t)\n"
     tr2 = {"k.py": ast.parse(TWO)}
     reidentify(tr2, inv)
-    expect("re-identification: a helper with two callers is left alone", "def _remember" in ast.unparse(tr2["k.py"]))
+    expect("re-identification: a helper with two call sites is expanded at both", "_remember" not in ast.unparse(tr2["k.py"])
+           and ast.unparse(tr2["k.py"]).count("self._n = t") == 2)
+    VAL = NEW + "    def other(self, ts):\n        return list(map(self._remember, ts))\n"
+    tr3 = {"k.py": ast.parse(VAL)}
+    reidentify(tr3, inv)
+    expect("re-identification: a helper that is also passed as a value is left alone", "def _remember" in ast.unparse(tr3["k.py"]))
     # ---- reaching definitions / origins on a fixture function
     from .engine import origins
     src_r = ("def g(result, flag):\n    row = dict(result)\n    if flag:\n        row = result\n    row['a'] = 1\n"
